@@ -62,9 +62,9 @@ impl Property for C18 {
         "C18"
     }
     fn rule(&self) -> &'static str {
-        "case = history of 3-25 operations over one Histogram and up to 2 LocalHistograms: start a shared / local timer (<=5 alive), \
+        "case = history of 3-25 operations over one Histogram and up to 2 LocalHistograms: start a shared / local timer on the precise or the coarse clock (<=5 alive), \
          end a chosen live timer by observe_duration / stop_and_record / stop_and_discard / drop (plain, or by the unwinding of a caught panic), on this thread or after moving \
-         it to a freshly spawned thread (joined at once), observe_closure_duration on the shared or a local histogram (the closure optionally observes / times / reads the same histogram), local flush / \
+         it to a freshly spawned thread (joined at once), observe_closure_duration / observe_closure_duration_coarse on the shared or a local histogram (the closure optionally observes / times / reads the same histogram), local flush / \
          clear / drop, create local. Oracle: count model (shared count and every local's pending count after every operation; +1 \
          exactly for record/drop, +0 for discard; a local timer's observation reaches the shared histogram when the timer dies), \
          returned durations finite and >= 0, and the shared sample sum grows by exactly the returned duration. Non-trivial: >=3 \
@@ -105,18 +105,27 @@ impl Property for C18 {
             match op {
                 0..=4 => {
                     if timers.len() < 5 {
-                        timers.push((created, T::Shared(hist.start_timer())));
+                        let coarse = src.chance(64);
+                        timers.push((created, T::Shared(if coarse { hist.start_coarse_timer() } else { hist.start_timer() })));
                         created += 1;
-                        log.push("start".into());
+                        if coarse {
+                            rep.class("coarse-clock-timer");
+                        }
+                        log.push(if coarse { "start(coarse)".into() } else { "start".into() });
                     }
                 }
                 5 => {
                     let live: Vec<usize> = locals.iter().enumerate().filter(|(_, l)| l.is_some()).map(|(i, _)| i).collect();
                     if timers.len() < 5 && !live.is_empty() {
                         let li = live[src.below(live.len())];
-                        timers.push((created, T::Local(locals[li].as_ref().unwrap().start_timer())));
+                        let coarse = src.chance(64);
+                        let l = locals[li].as_ref().unwrap();
+                        timers.push((created, T::Local(if coarse { l.start_coarse_timer() } else { l.start_timer() })));
                         created += 1;
-                        log.push(format!("start@L{}", li));
+                        if coarse {
+                            rep.class("coarse-clock-timer");
+                        }
+                        log.push(format!("start{}@L{}", if coarse { "(coarse)" } else { "" }, li));
                     }
                 }
                 6..=10 => {
@@ -161,7 +170,9 @@ impl Property for C18 {
                         // the closure may itself use the histogram it is timed on
                         let body = src.below(5);
                         let l = locals[li].as_ref().unwrap();
-                        let r = l.observe_closure_duration(|| {
+                        let coarse = src.chance(64);
+                        let f = |g: &mut dyn FnMut() -> u8| if coarse { l.observe_closure_duration_coarse(|| g()) } else { l.observe_closure_duration(|| g()) };
+                        let r = f(&mut || {
                             match body {
                                 1 => l.observe(0.0),
                                 2 => l.observe_closure_duration(|| ()),
@@ -190,7 +201,9 @@ impl Property for C18 {
                         log.push(format!("closure[body {}]@L{}", body, li));
                     } else {
                         let body = src.below(5);
-                        let r = hist.observe_closure_duration(|| {
+                        let coarse = src.chance(64);
+                        let f = |g: &mut dyn FnMut() -> u8| if coarse { hist.observe_closure_duration_coarse(|| g()) } else { hist.observe_closure_duration(|| g()) };
+                        let r = f(&mut || {
                             match body {
                                 1 => hist.observe(0.0),
                                 2 => hist.observe_closure_duration(|| ()),
